@@ -46,7 +46,7 @@ Full statement / proved / missing
                        `'n'`, `Optional['n']`, `NotUndef['n']`, chosen by `StructType.Parameters` from the optionality of
                        the key and from whether the value type accepts `undef` — `Ty.acceptsUndef` —; any member name,
                        duplicate names, the empty Struct), Runtime['rt', 'name', Regexp[/…/]] (every form that prints
-                       invertibly), TypeReference['…'] (every string), Callable[p…, lo, hi, block] and
+                       invertibly: all but a pattern without a name — `C05_runtime_pattern_without_name`, known finding), TypeReference['…'] (every string), Callable[p…, lo, hi, block] and
                        Callable[[p…, lo, hi, block], ret] in every shape that prints invertibly (`CallableShape`: see
                        below) — arbitrarily nested, all Int64 bounds, all string contents.
                        The full statement `C05_type_roundtrip_full` (over the whole `Ty`) is false exactly at the
@@ -236,6 +236,7 @@ example : printTy (.float 4609434218613702656 "1.50000".toList 46577159732126023
 def sampleNominal : Ty :=
   .tuple [.runtime "ruby".toList [] none, .runtime "ruby".toList ['n'] none, .runtime "go".toList [] none,
           .runtime ['r'] ['n'] (some ['a', '/', 'b']), .runtime ['r'] ['n'] (some []), .runtime [] [] none,
+          .runtime [] ['x'] none, .runtime [] ['x'] (some ['a']),
           .typeRef ['M', 'y', ':', ':', 'T'], .typeRef unresolvedRef, .typeRef ['\'', '\\'], .typeRef [],
           .struct [(['c'], false, .callable none none none)]] none
 example : WFTy envEx sampleNominal := by
@@ -318,6 +319,21 @@ example : parseTVal envEx (syms (printTVal sampleTVal)) = some sampleTVal :=
 example : printTVal sampleTVal =
     "{Integer[1, 2] => [Struct[{'a' => Any}], '\\'\\\\', Callable[String]], 'k' => {Optional['x'] => TypeReference['My::T']}, [String, 5] => undef}".toList := by
   decide +kernel
+
+/-- outside `WFTy` for Runtime the round trip fails (known finding C05-runtime-pattern-without-name): a Runtime with a
+    pattern and an empty name prints `Runtime['r', Regexp[/a/]]`, which the creator refuses -/
+theorem C05_runtime_pattern_without_name :
+    parseType envEx (syms (printTy (.runtime ['r'] [] (some ['a'])))) = none := by
+  have hexpr : tyExpr (.runtime ['r'] [] (some ['a'])) = tname .runtime [.str ['r'], tyExpr (.regexp ['a'])] := by
+    simp [tyExpr]
+  have hlit : Lit envEx (tname .runtime [.str ['r'], tyExpr (.regexp ['a'])]) :=
+    lit_tname envEx .runtime _ ⟨trivial, lit_tyExpr envEx (.regexp ['a']) (by simp only [WFTy, envEx]; decide), trivial⟩
+  unfold parseType printTy
+  rw [hexpr, C05_value_roundtrip envEx _ hlit]
+  have hr := resolve_regexp envEx ['a']
+  simp only [resolve_tname, List.isEmpty_cons, Bool.false_eq_true, if_false, exprsOf, exprOf, resolveArgs, resolveArg,
+    resolveArg_ty, hr, Option.map, Option.bind]
+  simp [createK, runtimeCreate]
 
 /-- the four key forms of a Struct member: optional key + value accepting `undef` and required key + value refusing it
     print the bare name; the other two need `Optional['n']` / `NotUndef['n']` -/
